@@ -11,14 +11,14 @@ from ..prop import V, hx, unhx
 
 WORKFLOW = ["create", "gen_key", "encrypt", "upload_config", "upload_index"]
 GRID = {
-    "CJJ14.PiBas": [{}, {"param_lambda": 16}, {"prf_f_output_length": 16}],
-    "CJJ14.PiPack": [{}, {"param_B": 1}, {"param_B": 2}, {"param_B": 3}, {"param_B": 8}],
-    "CJJ14.PiPtr": [{}, {"param_B": 1, "param_b": 1}, {"param_B": 2, "param_b": 2}, {"param_B": 4, "param_b": 2}, {"param_B": 2, "param_b": 4}],
+    "CJJ14.PiBas": [{}, {"param_lambda": 16}, {"prf_f_output_length": 16}, {"param_lambda": 16, "prf_f_output_length": 16}, {"param_lambda": 24, "prf_f_output_length": 24}],
+    "CJJ14.PiPack": [{}, {"param_B": 1}, {"param_B": 2}, {"param_B": 3}, {"param_B": 8}, {"param_lambda": 16, "prf_f_output_length": 16}],
+    "CJJ14.PiPtr": [{}, {"param_B": 1, "param_b": 1}, {"param_B": 2, "param_b": 2}, {"param_B": 4, "param_b": 2}, {"param_B": 2, "param_b": 4}, {"param_lambda": 16, "prf_f_output_length": 16}],
     "CJJ14.Pi2Lev": [{}, {"param_B": 2, "param_b": 2, "param_B_prime": 2, "param_b_prime": 2}, {"param_B": 4, "param_b": 2, "param_B_prime": 4, "param_b_prime": 2},
-                     {"param_B": 4, "param_b": 4, "param_B_prime": 4, "param_b_prime": 4}],
+                     {"param_B": 4, "param_b": 4, "param_B_prime": 4, "param_b_prime": 4}, {"param_lambda": 16, "prf_f_output_length": 16}],
     "CT14.Pi": [{}, {"param_identifier_size": 8}],
     "ANSS16.Scheme3": [{}, {"param_identifier_size": 8}],
-    "DP17.Pi": [{}, {"param_L": 2}, {"param_L": 4}, {"param_actual_storage_level_ratio": 0.5}, {"param_actual_storage_level_ratio": 1.0}],
+    "DP17.Pi": [{}, {"param_L": 2}, {"param_L": 4}, {"param_actual_storage_level_ratio": 0.5}, {"param_actual_storage_level_ratio": 1.0}, {"param_lambda": 16}],
     "CGKO06.SSE1": [{}, {"param_s": 128, "param_dictionary_size": 64}],
     "CGKO06.SSE2": [{}],
 }
